@@ -136,6 +136,11 @@ func buildProfile(tx *types.Transaction) (types.Profile, error) {
 	if _, ok := profile[types.CandidateKeyIsCandidate]; !ok {
 		profile[types.CandidateKeyIsCandidate] = types.IsCandidateNode
 	}
+	// the value is stored as it is sent. Any other text would leave an account which is neither a candidate nor unregistered: no further register transaction is accepted and the deposit is never refunded
+	if state := profile[types.CandidateKeyIsCandidate]; state != types.IsCandidateNode && state != types.NotCandidateNode {
+		log.Errorf("Unexpected value [%s] of %s in candidate profile", state, types.CandidateKeyIsCandidate)
+		return nil, ErrIsCandidate
+	}
 	if _, ok := profile[types.CandidateKeyIncomeAddress]; !ok {
 		profile[types.CandidateKeyIncomeAddress] = tx.From().String()
 	}
@@ -326,6 +331,10 @@ func (c *CandidateVoteEnv) RegisterOrUpdateToCandidate(tx *types.Transaction) er
 	candidateState, ok := candidateProfile[types.CandidateKeyIsCandidate]
 
 	if !ok || candidateState == "" { // 表示第一次注册候选节点，等于""为如果一个账户第一次注册候选交易失败之后，回滚会让map中的值回滚为零值，string类型的0值为"".箱子交易中容易出现此情况。
+		// an account that is no candidate cannot unregister. Its deposit would be taken and counted as votes of an account which is not a candidate
+		if txBuildProfile[types.CandidateKeyIsCandidate] != types.IsCandidateNode {
+			return ErrOfNotCandidateNode
+		}
 		if err := c.registerCandidate(tx.Amount(), senderAddr, txBuildProfile); err != nil {
 			return err
 		}
